@@ -67,6 +67,7 @@ type FuncContract struct {
 	Uses     []string // lemmas to instantiate (as assumptions) everywhere in this function
 	SlotOf   map[string]string // call through local var -> slot name
 	Trusted  bool
+	NoReturn bool
 	Bounded  int
 	mergeProps []string
 	Implements string // slot whose contract this function is verified against (own asserts/loop clauses are merged in)
@@ -205,7 +206,7 @@ func stripComment(s string) string {
 	return s
 }
 
-var kwRe = regexp.MustCompile(`^\s*(group|func|extern|slot|requires|ensures|modifies|invariant|history|loop|ghostinit|ghost|pure|lemma|axiom|const|global|assert|mode|maypanic|noinv|use|callslot|trusted|bounded|pkg|end|implements|macro|promise)\b`)
+var kwRe = regexp.MustCompile(`^\s*(group|func|extern|slot|requires|ensures|modifies|invariant|history|loop|ghostinit|ghost|pure|lemma|axiom|const|global|assert|mode|maypanic|noinv|use|callslot|trusted|bounded|pkg|end|implements|macro|promise|noreturn)\b`)
 
 var labelRe = regexp.MustCompile(`^\s*([A-Za-z_][A-Za-z0-9_]*)\s*:\s*(.*)$`)
 var propsRe = regexp.MustCompile(`^\s*\[([A-Z0-9, ]+)\]\s*(.*)$`)
@@ -353,6 +354,9 @@ func (c *Contracts) LoadFile(path string) error {
 		case "trusted":
 			cur.Trusted = true
 			c.Assumptions = append(c.Assumptions, "trusted (body not verified): "+cur.Name+" @ "+l.where)
+		case "noreturn":
+			// the function never returns normally (it exits the process or panics)
+			cur.NoReturn = true
 		case "bounded":
 			n, _ := strconv.Atoi(rest)
 			cur.Bounded = n
@@ -501,7 +505,8 @@ func (c *Contracts) LoadFile(path string) error {
 					}
 					cur.LoopMod[n] = append(cur.LoopMod[n], ModItem{it, e})
 				}
-			case "assume", "step":
+			case "assume", "step", "breakstep":
+				// breakstep: a step clause that must also hold when the iteration leaves the loop from its body
 				props, r := splitProps(fs[2])
 				label, r := splitLabel(r)
 				e, err := ParseCExpr(r)
@@ -512,6 +517,10 @@ func (c *Contracts) LoadFile(path string) error {
 					props = cur.mergeProps
 				}
 				cl := &Clause{Kind: fs[1], Label: label, Props: props, Expr: e, Src: r, Loop: n, Where: l.where}
+				if fs[1] == "breakstep" {
+					cl.Kind = "step"
+					cl.At = "break"
+				}
 				if fs[1] == "assume" {
 					if cur.LoopAssume == nil {
 						cur.LoopAssume = map[int][]*Clause{}
